@@ -181,6 +181,75 @@ func runC16(c *core.Ctx) {
 	for i := 0; i < N; i++ {
 		c16Case(res, rng, i)
 	}
+	for i := 0; i < N/3; i++ {
+		c16Flat(res, rng, i)
+	}
+}
+
+// c16Flat: the same function resolution order through the single-value, map and URL validators.
+func c16Flat(res *core.Result, rng *rand.Rand, idx int) {
+	env := &ref.Env{Local: map[string]ref.FnModel{}, Global: map[string]ref.FnModel{}}
+	for n, m := range c16Globals {
+		env.Global[n] = ref.FnModel{Marker: m}
+	}
+	local := valid.Name2FnMap{}
+	for _, name := range []string{"phone", "int", "g_both", "g_all", "email", "l_only"} {
+		if rng.Intn(2) == 0 {
+			m := "fn_local_" + name
+			local[name] = markerFn(m)
+			env.Local[name] = ref.FnModel{Marker: m}
+		}
+	}
+	names := []string{"phone", "int", "g_both", "g_all", "email", "l_only", "g_only", "ipv6", "nosuch_fn", "ip", "to=1~3|m_to"}
+	items := []string{}
+	for k := 0; k < 1+rng.Intn(4); k++ {
+		items = append(items, names[rng.Intn(len(names))])
+	}
+	rules := strings.Join(items, ",")
+	val := c16Str(rng)
+	if val == "" {
+		val = "zz"
+	}
+	carrier := []string{"var", "map", "url"}[rng.Intn(3)]
+	var out drive.Out
+	var exps []ref.Exp
+	switch carrier {
+	case "var":
+		exps = env.ExpectVar(reflect.ValueOf(val), rules)
+		out = drive.Call(func() error {
+			v := valid.NewVVar().SetRules(rules)
+			for n, f := range local {
+				v.SetValidFn(n, f)
+			}
+			return v.Valid(val)
+		})
+	case "map":
+		env.Begin()
+		env.ExpectFlat([]ref.FlatEntry{{Key: "k", Val: reflect.ValueOf(val)}}, map[string]string{"k": rules}, func(k string) string { return "map[" + k + "]" }, "", true, nil)
+		exps = env.Finish()
+		out = drive.Call(func() error { return valid.MapFn(map[string]string{"k": val}, valid.RM{"k": rules}, local) })
+	default:
+		env.Begin()
+		env.ExpectFlat([]ref.FlatEntry{{Key: "k", Val: reflect.ValueOf(val)}}, map[string]string{"k": rules}, func(k string) string { return k }, "", false, nil)
+		exps = env.Finish()
+		out = drive.Call(func() error {
+			v := valid.NewVUrl().SetRule(valid.RM{"k": rules})
+			for n, f := range local {
+				v.SetValidFn(n, f)
+			}
+			return v.Valid("http://h.example/p?k=" + val)
+		})
+	}
+	res.Count("route|flat-" + carrier)
+	fns := []string{}
+	for n := range local {
+		fns = append(fns, n)
+	}
+	sortStrings(fns)
+	wit := vWitness{Entry: "flat-" + carrier, Value: val, Rules: map[string]interface{}{"rules": rules, "per_call_functions": fns}}
+	if judged, _ := compareCall(res, "C16|flat-"+carrier, "", out, exps, false, env, true, wit); judged {
+		res.Distinct(fmt.Sprint("flat", carrier, val, rules, fns))
+	}
 }
 
 func c16Case(res *core.Result, rng *rand.Rand, idx int) {
